@@ -85,16 +85,17 @@ func VHSend() {
 		returned = true
 	})
 	vWait()
-	rest := c19drain(ch)
-	where := c19count(peerGot, v) + c19count(rest, v)
 	if !returned {
-		vAssert(where == 0, "a send that has not returned has not handed the value over")
+		// (the channel is not drained here: that would wake the blocked sender)
+		vAssert(c19count(peerGot, v) == 0, "a send that has not returned has not handed the value over")
 		if !useCtx {
 			vAssert(timeout <= 0, "SendTimeout with a positive timeout always returns")
 		}
 		vCover("send: blocked forever (no limit)")
 		return
 	}
+	rest := c19drain(ch)
+	where := c19count(peerGot, v) + c19count(rest, v)
 	if res {
 		vAssert(where == 1, "Send* returns true exactly when the value was handed to the channel, once")
 		vCover("send: delivered")
@@ -119,10 +120,9 @@ func VHRecv() {
 	ctx := c19ctx{make(chan struct{})}
 	timeout := vInt64("timeout")
 	peer := vChoose("peer", 3) // 0 nothing, 1 sends v, 2 closes
-	sent := false
 	switch peer {
 	case 1:
-		vGo(func() { ch <- v; sent = true })
+		vGo(func() { ch <- v })
 	case 2:
 		vGo(func() { close(ch) })
 	}
@@ -139,16 +139,15 @@ func VHRecv() {
 		returned = true
 	})
 	vWait()
-	rest := c19drain(ch)
-	all := append(append([]int(nil), q...), v)
 	if !returned {
 		if !useCtx {
 			vAssert(timeout <= 0, "RecvTimeout with a positive timeout always returns")
 		}
-		vAssert(len(rest) == len(q), "a receive that has not returned has consumed nothing")
+		vAssert(len(q) == 0, "a receive blocks only on an empty channel")
 		vCover("recv: blocked forever (no limit)")
 		return
 	}
+	rest := c19drain(ch)
 	if ok {
 		// took exactly the head of the queue
 		want := v
@@ -171,8 +170,6 @@ func VHRecv() {
 		}
 		vCover("recv: gave up or closed")
 	}
-	_ = all
-	_ = sent
 }
 
 // VHRecvQueued: the non-blocking bulk receivers.
